@@ -17,7 +17,7 @@ From Verif.Lib Require Import QRound.
 From Verif.Model Require Import Result Comparers.
 From Verif.Gen Require Comparers.
 From Verif.Bridge Require Import Comparers.
-From Verif.Proofs Require Import ComparersLA Comparers ComparersCredit.
+From Verif.Proofs Require Import ComparersLA Comparers ComparersCredit ComparersDim.
 Import ListNotations.
 Open Scope Q_scope.
 
@@ -138,16 +138,23 @@ Theorem C16_span_model : forall d tl (ws : list cvec) (v : cvec), ws <> [] ->
 Proof. exact span_cmp_core. Qed.
 
 (* full statement: for ALL ws (of the input's length), accepted <-> not zero within tolerance /\ exists cs,
-   |v - sum cs_j ws_j| within tolerance  -- refuted below for dependent ws.  Proved: independent ws, fewer than
-   the dimension.  Missing for the full independent case: length ws >= length v (then lstsq reports no residual
-   and every nonzero vector is accepted, which is right because independent ws then span everything -- that
-   needs the dimension theorem, not proved here). *)
-Theorem C16_span_iff_independent_partial : forall tl ws v,
-  crank ws = length ws -> (length ws < length v)%nat ->
+   |v - sum cs_j ws_j| within tolerance  -- refuted below for dependent ws.  What holds is the statement for
+   linearly independent ws, any number of them (as many as the dimension: lstsq reports no residual, every nonzero
+   vector is accepted, and rightly so -- independent_vectors span everything, Proofs/ComparersDim.v). *)
+Theorem C16_span_iff_independent : forall tl ws v, tol_ok tl = true ->
+  (forall w, In w ws -> length w = length v) -> crank ws = length ws ->
   (span_accept tl ws v <->
    norm_le tl 0 (norm2 v) = false /\ tol_ok tl = true /\
    exists cs : list C, dist2 v (lincomb cs ws) <= tol2 tl (norm2 v)).
-Proof. exact span_iff. Qed.
+Proof. exact span_iff_independent. Qed.
+
+(* the model's rank never exceeds the dimension; with full rank equal to the dimension nothing is left over *)
+Theorem C16_rank_at_most_dimension : forall ws n, (forall w, In w ws -> (length w <= n)%nat) -> (crank ws <= n)%nat.
+Proof. exact crank_le_dim. Qed.
+
+Theorem C16_full_rank_spans_everything : forall ws v n, (forall w, In w ws -> (length w <= n)%nat) ->
+  (length v <= n)%nat -> crank ws = n -> cres2 ws v == 0.
+Proof. exact full_rank_square_spans. Qed.
 
 Theorem C16_span_members : forall tl ws v cs, tol_ok tl = true -> norm_le tl 0 (norm2 v) = false ->
   veq v (lincomb cs ws) -> span_accept tl ws v.
@@ -189,6 +196,11 @@ Proof. exact phase_sound. Qed.
 (* ------------------------------------------------------------------------------------------ *)
 (* MatrixEntryComparer                                                                          *)
 (* ------------------------------------------------------------------------------------------ *)
+Theorem C16_entry_model : forall d tl pc ss,
+  Forall (fun es => shape_eqb (shape_of (fst es)) (shape_of (snd es)) = true) ss ->
+  matrix_entry_cmp (Some d) tl pc ss = entry_credit pc (entry_summary tl ss).
+Proof. exact entry_cmp_valid_shape. Qed.
+
 Theorem C16_entry_summary_spec : forall tl ss n, ss <> [] ->
   Forall (fun es => length (flat (fst es)) = n /\ length (flat (snd es)) = n) ss ->
   entry_summary tl ss = map (entry_match tl ss) (seq 0 n).
@@ -216,6 +228,10 @@ Proof. exact entry_zero_iff. Qed.
 (* ------------------------------------------------------------------------------------------ *)
 (* LinearComparer                                                                               *)
 (* ------------------------------------------------------------------------------------------ *)
+Theorem C16_linear_model : forall d tl cfg e s ss, shape_eqb (shape_of e) (shape_of s) = true ->
+  linear_cmp (Some d) tl cfg ((e, s) :: ss) = linear_cmp None tl cfg ((e, s) :: ss).
+Proof. exact linear_cmp_valid_shape. Qed.
+
 Theorem C16_linear_best_mode : forall tl cfg ss g mk,
   (forall m c, credit_of cfg m = Some c -> 0 <= c) ->
   linear_cmp None tl cfg ss = CDict g mk ->
@@ -303,7 +319,7 @@ Proof. exact (conj default_credits_bridge all_modes_bridge). Qed.
 (* ------------------------------------------------------------------------------------------ *)
 Definition ex_w1 : cvec := [(1, 0); (1, 0); (0, 0)].
 Definition ex_w2 : cvec := [(0, 0); (1, 0); (2, 0)].
-(* 2 w1 + 3i w2 = [2, 2+3i, 6i] is accepted, [2, 2+3i, 6] is not; the hypotheses of C16_span_iff_independent_partial hold *)
+(* 2 w1 + 3i w2 = [2, 2+3i, 6i] is accepted, [2, 2+3i, 6] is not; the hypotheses of C16_span_iff_independent hold *)
 Example C16_ex_span :
   crank [ex_w1; ex_w2] = length [ex_w1; ex_w2] /\
   span_core (TPct (1 # 10000)) (lstsq_spec [ex_w1; ex_w2] [(2, 0); (2, 3); (0, 6)]) [(2, 0); (2, 3); (0, 6)] = CBool true /\
